@@ -455,6 +455,9 @@ def run(ctx):
     plan = [("MM1-222", 2), ("MV1-42", 5)] if q else [("MM1-222", 1), ("MV1-42", 1), ("MM1-232-x3", 1)]
     for it in plan:
         s_trees(it[0])
+    # warm-up in the parent: imports, jitted kernels, caches are inherited by the forked workers
+    check_tree(plan[0][0], 0)
+    body_T(("MV2-222/tight", "ELR", True))
     ctx.explore("model-tables", make_tree_S(plan), make_body_S(plan), shard_depth=2, distinct_by_construction=True)
     sids = QUICK if q else list(FAM.FAMILY) + list(EXTRA)
     metrics = ["E", "ELR"] if q else ["E", "EL", "ELR", "EDP"]
